@@ -40,6 +40,12 @@ def run(c):
                      {"op": "verify", "c": "A3"}, {"op": "sign", "c": "B"}, {"op": "verify", "c": "B"}, {"op": "verify", "c": "At"}, {"op": "verify", "c": "A4"}],
                     [{"op": "sign", "c": "A"}, {"op": "sign", "c": "At"}, {"op": "verify", "c": "At"}, {"op": "verify", "c": "A"}, {"op": "verify", "c": "B"}]):
             extra.append({"img": img, "ops": ops})
+    # WIN_CERTIFICATE entries of every length class modulo 8 as the non-last entry (certificates whose names differ in length)
+    for n in range(8):
+        L = "L%d" % n
+        for img in ("u5", "u0"):
+            extra.append({"img": img, "ops": [{"op": "sign", "c": L}, {"op": "sign", "c": "B"}, {"op": "verify", "c": L}, {"op": "verify", "c": "B"}, {"op": "reparse", "c": "-"},
+                                               {"op": "verify", "c": L}, {"op": "verify", "c": "B"}, {"op": "sign", "c": "A"}, {"op": "verify", "c": L}, {"op": "verify", "c": "A"}]})
     scen = [{"sc": i, "img": h["img"], "ops": h["ops"]} for i, h in enumerate(hs + extra)]
     env = dict(os.environ, VERIF_FIXTURES=os.path.join(vf.VERIF, "fixtures"))
     res, deaths = c.run_worker("pesign", scen, env=env, timeout=1800)
